@@ -375,7 +375,7 @@ func doBatch(s *simT, cmd *proto.Cmd, out *os.File) {
 		tk := s.spawn("c0", "", func() {
 			for i := range cmd.Reqs {
 				resps[i].Client = cmd.Reqs[i].Client
-				resps[i].Invoke = s.seq.Load()
+				resps[i].Invoke = s.seq.Add(1)
 				execReq(&cmd.Reqs[i], &resps[i])
 				resps[i].Return = s.seq.Add(1)
 				resps[i].Done = true
@@ -403,7 +403,7 @@ func doBatch(s *simT, cmd *proto.Cmd, out *os.File) {
 		req := &cmd.Reqs[i]
 		resps[i].Client = req.Client
 		tasks[i] = s.spawn(req.Client, "start "+req.Client, func() {
-			resps[i].Invoke = s.seq.Load()
+			resps[i].Invoke = s.seq.Add(1)
 			execReq(req, &resps[i])
 			resps[i].Return = s.seq.Add(1)
 			resps[i].Done = true
